@@ -29,7 +29,7 @@ ASSUMPTIONS = [
 ]
 
 SEEDS = {"a": 11, "b": 2024}
-OPS = ["enter_a", "enter_b", "exit", "exit_exc", "with_ok_a", "with_raise_b", "push_a", "pop", "draw", "spawn"]
+OPS = ["enter_a", "enter_b", "exit", "exit_exc", "with_ok_a", "with_raise_b", "with_same_a", "push_a", "pop", "draw", "spawn"]
 
 
 class _Boom(Exception):
@@ -48,7 +48,7 @@ def _expected_spawn(seed, nspawned):
 
 def model_enabled(model):
     top = model[-1]
-    en = ["enter_a", "enter_b", "with_ok_a", "with_raise_b", "push_a", "draw", "spawn"]
+    en = ["enter_a", "enter_b", "with_ok_a", "with_raise_b", "with_same_a", "push_a", "draw", "spawn"]
     if top[0] == "ctx":
         en += ["exit", "exit_exc"]
     if top[0] == "push":
@@ -68,7 +68,7 @@ def model_step(model, op):
         model[-1][2] += 1
     elif op == "spawn":
         model[-1][3] += 1
-    # with_ok_a / with_raise_b: balanced, no change of the model stack
+    # with_ok_a / with_raise_b / with_same_a: balanced, no change of the model stack
     return tuple(tuple(e) for e in model)
 
 
@@ -82,6 +82,7 @@ class Impl:
         from vf import models_cl
         self.rnd = ift.random
         models_cl.reset_random()
+        self.same = rnd_ctx = None   # one Context object that is entered again and again (op with_same_a)
         self.ctxs = []        # live Context objects, innermost last
         self.gens = [self.rnd.current_rng()]   # generator identities per level
 
@@ -121,6 +122,21 @@ class Impl:
                 d = rnd.current_rng().normal(0., 1., 2)
             if not np.array_equal(d, _expected_draw(SEEDS["a"], 0)):
                 return "draw inside a fresh context does not depend on its seed only"
+        elif op == "with_same_a":
+            # the SAME Context object entered once more (also after a block left by an exception):
+            # draws inside a context depend only on its seed, so every entry sees the stream from its start
+            if self.same is None:
+                self.same = rnd.Context(SEEDS["a"])
+            try:
+                with self.same:
+                    d = rnd.current_rng().normal(0., 1., 2)
+                    raise _Boom()
+            except _Boom:
+                pass
+            with self.same:
+                d2 = rnd.current_rng().normal(0., 1., 2)
+            if not (np.array_equal(d, _expected_draw(SEEDS["a"], 0)) and np.array_equal(d2, _expected_draw(SEEDS["a"], 0))):
+                return "draws inside a re-entered Context object do not depend on its seed only"
         elif op == "with_raise_b":
             caught = False
             try:
@@ -208,7 +224,7 @@ def bfs(prefix, depth):
             if v:
                 return dict(states=states, transitions=transitions,
                             violation=dict(history=hist + [op], what=v))
-            if op in ("exit", "exit_exc", "pop", "with_ok_a", "with_raise_b"):
+            if op in ("exit", "exit_exc", "pop", "with_ok_a", "with_raise_b", "with_same_a"):
                 exits += 1
             key = (m2, len(hist) + 1)   # depth-bounded search: the remaining budget is part of the state
             if key not in seen:
